@@ -15,7 +15,7 @@ pub fn generate(prop: &str, r: &mut Rng, id: usize, thorough: bool) -> Group {
     match prop {
         "C01" => gen_c01(r, id, thorough),
         "C02" => gen_c02(r, id, thorough),
-        "C03" => gen_pipeline(r, id, "C03", &PipeOpts::default(), &key_universe_small(), 40),
+        "C03" => gen_c03(r, id),
         "C04" => { let d_ = r.range(1, 5); gen_expr_case(r, id, "C04", &ExprOpts::default(), d_) },
         "C05" => gen_c05(r, id, thorough),
         "C06" => gen_c06(r, id),
@@ -118,6 +118,37 @@ pub fn get_key<'a>(v: &'a V, k: &str) -> Option<&'a V> {
     }
 }
 
+// ---------------------------------------------------------------------------------- C03
+
+/// pipelines over the small key universe (`gen_pipeline`), plus (a) now and then a few top-level
+/// arrays / empty containers among the input values, so that --only-objects-and-arrays, --split-by
+/// and the extractors see containers that are not records, and (b) for a third of the groups a twin
+/// with the same options in another order on the command line.
+pub fn gen_c03(r: &mut Rng, id: usize) -> Group {
+    let mut g = gen_pipeline(r, id, "C03", &PipeOpts::default(), &key_universe_small(), 40);
+    if r.chance(30) {
+        let extras = [V::Arr(vec![]), V::Obj(vec![]), V::Arr(vec![V::Int(1)]), V::Arr(vec![V::Arr(vec![])]),
+                      V::Arr(vec![V::Obj(vec![("k".into(), V::Int(1)), ("j".into(), V::Int(2))]), V::Str("a".into())])];
+        for _ in 0..r.range(1, 3) {
+            let pos = r.below(g.values.len() + 1);
+            g.values.insert(pos, r.pick(&extras).clone());
+        }
+        let (bytes, _) = stream_of(r, &g.values, false);
+        g.cases[0].sources = vec![stdin_src(bytes)];
+        if r.chance(40) {
+            g.cases[0].spec.ooa = true;
+        }
+        g.labels.push("extras:containers".into());
+    }
+    if r.chance(33) {
+        let mut twin = g.cases[0].clone();
+        twin.id = format!("{}-reordered", twin.id);
+        twin.shuffle = (r.next() | 1) ^ 2;
+        g.cases.push(twin);
+    }
+    g
+}
+
 // ---------------------------------------------------------------------------------- C05
 
 pub fn gen_c05(r: &mut Rng, id: usize, _thorough: bool) -> Group {
@@ -189,6 +220,17 @@ pub fn garbage_token(r: &mut Rng) -> Vec<u8> {
     (0..n).map(|_| if r.chance(50) { *r.pick(b"}],:.eE+x") } else { *r.pick(&pool) }).collect()
 }
 
+/// C06 noise token: ~30 % are ONE byte drawn uniformly from a short list of suspicious bytes
+/// (control characters that some notions of "white space" swallow, bytes >= 0x80, JSON punctuation),
+/// so that a malformed region often consists of a single byte class; the rest as `garbage_token`.
+pub fn garbage_token_c06(r: &mut Rng) -> Vec<u8> {
+    const SUSPICIOUS: &[u8] = &[0x0C, 0x0B, 0x00, 0x1F, 0x7F, 0x85, 0xA0, 0xC2, 0xFF, b'}', b']', b',', b':', b'.', b'e', b'E', b'+', b'x', b'/', b'\\'];
+    if r.chance(30) {
+        return vec![*r.pick(SUSPICIOUS)];
+    }
+    garbage_token(r)
+}
+
 pub fn gen_c06(r: &mut Rng, id: usize) -> Group {
     let o = GenOpts::default();
     let n = r.range(1, 8);
@@ -196,28 +238,36 @@ pub fn gen_c06(r: &mut Rng, id: usize) -> Group {
     // clean stream, values separated by single newlines; noise is inserted at gaps, white-space delimited
     let mut clean: Vec<u8> = vec![];
     let mut noisy: Vec<u8> = vec![];
-    let mut regions = 0;
+    // for every malformed region: the number of values in front of it
+    let mut at: Vec<usize> = vec![];
     for (i, v) in vals.iter().enumerate() {
         let t = value::render(v);
-        let mut gap_noise = |noisy: &mut Vec<u8>, r: &mut Rng| {
+        let mut gap_noise = |noisy: &mut Vec<u8>, r: &mut Rng, before: usize| {
             if r.chance(45) {
                 let k = r.range(1, 2);
+                // a region made of one repeated token (one byte class) now and then
+                let same = if r.chance(35) { Some(garbage_token_c06(r)) } else { None };
                 for _ in 0..k {
-                    noisy.extend_from_slice(&garbage_token(r));
+                    let tok = match &same {
+                        Some(t) => t.clone(),
+                        None => garbage_token_c06(r),
+                    };
+                    noisy.extend_from_slice(&tok);
                     noisy.push(*r.pick(b" \n"));
                 }
-                regions += 1;
+                at.push(before);
             }
         };
         if i == 0 {
-            gap_noise(&mut noisy, r);
+            gap_noise(&mut noisy, r, 0);
         }
         clean.extend_from_slice(t.as_bytes());
         clean.push(b'\n');
         noisy.extend_from_slice(t.as_bytes());
         noisy.push(b'\n');
-        gap_noise(&mut noisy, r);
+        gap_noise(&mut noisy, r, i + 1);
     }
+    let regions = at.len();
     let spec = {
         let mut s = Spec::default();
         match r.below(6) {
@@ -234,19 +284,23 @@ pub fn gen_c06(r: &mut Rng, id: usize) -> Group {
         s
     };
     let mut cases = vec![];
-    for (pi, pol) in ["ignore", "stderr", "stdout", "panic"].iter().enumerate() {
+    for pol in ["ignore", "stderr", "stdout", "panic"].iter() {
         for (which, bytes) in [("noisy", &noisy), ("clean", &clean)] {
             let mut c = case(format!("C06-{id}-{pol}-{which}"));
             c.spec = spec.clone();
             c.spec.on_error = Some(pol.to_string());
             c.sources.push(stdin_src(bytes.clone()));
             cases.push(c);
-            let _ = pi;
         }
     }
     let mut g = Group::new(cases);
     g.values = vals;
-    g.tag = format!("regions={regions}");
+    // regions = number of malformed regions; first = values in front of the first one; at = values in front of each
+    g.tag = format!(
+        "regions={regions} first={} at={}",
+        at.first().map(|x| x.to_string()).unwrap_or("-".into()),
+        at.iter().map(|x| x.to_string()).collect::<Vec<_>>().join(",")
+    );
     g.nontrivial = regions >= 2;
     g.labels.push(format!("regions:{}", bucket(regions)));
     g
